@@ -15,11 +15,17 @@ import stix2
 from stix2 import registry, properties as P
 hist = json.loads(sys.argv[1])
 out = []
-def snap(): return {v: {c: sorted(m) for c, m in cats.items()} for v, cats in registry.STIX2_OBJ_MAPS.items()}
-def make(kind, name, ver, props=None):
+def snap(): return {v: {c: {n: id(k) for n, k in m.items()} for c, m in cats.items()} for v, cats in registry.STIX2_OBJ_MAPS.items()}
+def make(kind, name, ver, props=None, ext=None):
     mod = stix2.v21 if ver == '2.1' else stix2.v20
     props = props or [('x_val', P.IntegerProperty())]
-    if kind == 'object':
+    if kind == 'object+ext':
+        @mod.CustomObject(name, props, extension_name=ext)
+        class C(object): pass
+    elif kind == 'observable+ext':
+        @mod.CustomObservable(name, props, id_contrib_props=['x_val'], extension_name=ext)
+        class C(object): pass
+    elif kind == 'object':
         @mod.CustomObject(name, props)
         class C(object): pass
     elif kind == 'observable':
@@ -33,19 +39,20 @@ def make(kind, name, ver, props=None):
         @mod.CustomExtension(name, props)
         class C(object): pass
     return C
-CAT = {'object': 'objects', 'observable': 'observables', 'marking': 'markings', 'extension': 'extensions'}
+CAT = {'object': 'objects', 'observable': 'observables', 'marking': 'markings', 'extension': 'extensions', 'object+ext': 'objects', 'observable+ext': 'observables'}
 classes = {}
 for step in hist:
     kind, name, ver = step['kind'], step['name'], step['ver']
     before = snap()
     try:
-        c = make(kind, name, ver, [(step['prop'], P.IntegerProperty())] if step.get('prop') else None)
+        c = make(kind, name, ver, [(step['prop'], P.IntegerProperty())] if step.get('prop') else None, step.get('ext'))
         res = 'ok'; classes[(kind, name, ver)] = c
     except Exception as ex:
         res = type(ex).__name__
     after = snap()
     delta = [(v, cat, t) for v in after for cat in after[v] for t in after[v][cat] if t not in before[v][cat]]
-    lost = [(v, cat, t) for v in before for cat in before[v] for t in before[v][cat] if t not in after[v][cat]]
+    lost = [(v, cat, t) for v in before for cat in before[v] for t in before[v][cat] if t not in after[v][cat] or after[v][cat][t] != before[v][cat][t]]
+    kind = kind.split('+')[0]
     # parse behaviour after the step, for both versions
     parsed = {}
     U = '00000000-0000-4000-8000-000000000001'
@@ -68,7 +75,19 @@ for step in hist:
         except Exception as ex:
             parsed[pv] = 'ERR:' + type(ex).__name__
     reg = registry.STIX2_OBJ_MAPS[ver][CAT[kind]].get(name)
-    out.append({'step': step, 'result': res, 'delta': delta, 'lost': lost, 'parsed': parsed, 'registered_is_new': (reg is classes.get((kind, name, ver))) if res == 'ok' else None})
+    usable = None
+    if step.get('probe_ext'):
+        # a registration made earlier under this extension id must still be there and usable
+        k0 = registry.STIX2_OBJ_MAPS['2.1']['extensions'].get(step['probe_ext'])
+        if k0 is None: usable = False
+        else:
+            usable = 'ERR'
+            for kw in ({}, {'x_val': 1}):
+                try:
+                    if k0(**kw) is not None: usable = True; break
+                except Exception as ex: usable = 'ERR:' + type(ex).__name__
+    out.append({'step': step, 'result': res, 'delta': delta, 'lost': lost, 'parsed': parsed, 'usable': usable,
+                'registered_is_new': (reg is classes.get((step['kind'], name, ver))) if res == 'ok' else None})
 print(json.dumps(out))
 '''
 
@@ -115,6 +134,15 @@ def run(chk):
         for k in ('object', 'observable'):
             hs.append(({'kind': k, 'name': '7x-foo', 'ver': '2.0'}, {'kind': k, 'name': '7x-foo', 'ver': '2.1', 'invalid': True}))
             hs.append(({'kind': k, 'name': 'x-a--b', 'ver': '2.1'}, {'kind': k, 'name': 'x-a--b', 'ver': '2.0', 'invalid': True}))
+        # types declared together with an extension-definition id (extension_name=): the id is a registration of its own
+        E1, E2 = 'extension-definition--00000000-0000-4000-8000-0000000000e1', 'extension-definition--00000000-0000-4000-8000-0000000000e2'
+        oe = lambda k, n, e, **kw: dict({'kind': k + '+ext', 'name': n, 'ver': '2.1', 'ext': e}, **kw)
+        hs += [(oe('object', 'x-vf-a', E1),), (oe('observable', 'x-vf-a', E1),),
+               ({'kind': 'extension', 'name': E1, 'ver': '2.1'}, oe('object', 'x-vf-b', E1, ext_taken=True, probe_ext=E1)),
+               ({'kind': 'extension', 'name': E1, 'ver': '2.1'}, oe('observable', 'x-vf-b', E1, ext_taken=True, probe_ext=E1)),
+               (oe('object', 'x-vf-a', E1), oe('object', 'x-vf-b', E1, ext_taken=True, probe_ext=E1)), (oe('object', 'x-vf-a', E1), oe('observable', 'x-vf-b', E1, ext_taken=True, probe_ext=E1)),
+               (oe('observable', 'x-vf-a', E1), oe('observable', 'x-vf-b', E1, ext_taken=True, probe_ext=E1)), (oe('object', 'x-vf-a', E1), oe('object', 'x-vf-b', E2)),
+               (oe('object', 'x-vf-a', E1), oe('object', 'x-vf-b', E1, ext_taken=True, probe_ext=E1), oe('object', 'x-vf-b', E2))]
         triples = [(a, b, c) for a in core[:4] for b in core[:4] for c in core[:4]]
         hs += triples if chk.tier == 'thorough' else triples[chk.seed % 7::7]
         return hs
@@ -126,11 +154,21 @@ def run(chk):
             raise RuntimeError('worker failed: ' + r.stderr[-300:])
         res = json.loads(r.stdout.strip().splitlines()[-1])
         registered = set()
-        CAT = {'object': 'objects', 'observable': 'observables', 'marking': 'markings', 'extension': 'extensions'}
+        CAT = {'object': 'objects', 'observable': 'observables', 'marking': 'markings', 'extension': 'extensions', 'object+ext': 'objects', 'observable+ext': 'observables'}
         for st in res:
             s = st['step']; key = (s['ver'], CAT[s['kind']], s['name'])
             names = [(x['kind'], x['name'], x['ver']) for x in hist]
-            if st['lost']: return ('registry#existing registrations intact', f'{names}: step {s} removed {st["lost"]}', {})
+            if st['lost']: return ('registry#existing registrations intact', f'{names}: step {s} removed or replaced {st["lost"]}', {})
+            if st.get('usable') not in (None, True): return ('registry#existing registrations intact', f'{names}: after step {s} the earlier registration under {s.get("probe_ext")} is no longer usable ({st["usable"]})', {})
+            if '+ext' in s['kind']:
+                if s.get('ext_taken'):
+                    if st['result'] != 'DuplicateRegistrationError': return ('exclusive#duplicate refused', f'{names}: extension id {s["ext"]} was taken, registration gave {st["result"]}', {})
+                    continue          # (what else a refused combined registration may leave behind is not stated by the property: only existing registrations are checked)
+                if st['result'] != 'ok': return ('exact#valid registration accepted', f'{names}: valid registration {key} with extension id {s["ext"]} refused: {st["result"]}', {})
+                want = sorted([list(key), ['2.1', 'extensions', s['ext']]])
+                if sorted(list(d) for d in st['delta']) != want: return ('exact#registry gains exactly the registered name', f'{names}: step {s} changed {st["delta"]}, expected {want}', {})
+                registered.add(key); registered.add(('2.1', 'extensions', s['ext']))
+                continue
             if s.get('invalid'):
                 if st['result'] == 'ok': return (f'naming#invalid name accepted:{s["kind"]}', f'{names}: registration of invalid name {s["name"]!r} for {s["ver"]} accepted', {'step': s})
                 if st['delta']: return ('registry#refused registration leaves registries unchanged', f'{names}: refused step {s} changed {st["delta"]}', {})
